@@ -5,7 +5,7 @@ from fvsym.rt import *  # noqa
 BOUNDS = {
     "quick": "tensor-owned trees of skeleton 0/1/2/3-fiber, [1,1], [2,1], [1,0], [] and depth-3 [[1]] with symbolic coordinates and values; one read phase "
              "(getPayload full/prefix/caller default, getPosition) at a symbolic point, one reference write (<<= or +=) at a second symbolic point, "
-             "read-back at both; every start_pos 0..n on 1-level fibers; rank-0 tensor",
+             "read-back at both; every start_pos 0..n on 1-level fibers; rank-0 tensor; assignment of a fiber at a partial point (prefix handle <<= fiber); pinned-coordinate counterparts of the 2- and 3-level reference-write obligations; start_pos legality as in the library's own assertion (position 0 always legal)",
     "thorough": "adds [2,2], [[1,1]] depth-3 skeletons ([[1],[1]] for getPositionRef only), 4-fibers for start_pos, two successive reference writes",
 }
 OUTSIDE = "trace= side effects (C16), lazy fibers (rejected by assertion), unordered fibers"
